@@ -221,7 +221,7 @@ class FinishQueryFrame(Contract):
     processing_state hold exactly what they held before the call"""
     id = "C15.TextQueryBackend.finish_query"
     target = "sigma.conversion.base:TextQueryBackend.finish_query"
-    props = ("C15", "C08")
+    props = ("C15", "C08", "C05", "C01")
     cases = tuple((nd, ns, dfr) for nd in (0, 1, 2) for ns in (0, 1) for dfr in (False, True))
     assumed = ["str.format of the query template is abstract (receives the arguments, returns a string)", "collections.ChainMap modelled as an object holding its maps (first hit wins)",
                "sizes of state_defaults (0..2) and of the pipeline state (0..1) unrolled; the pipeline key is also a defaults key when both are non-empty"]
@@ -242,18 +242,32 @@ class FinishQueryFrame(Contract):
                 cap["state_items"] = dict(st)
             cap["r"] = I2.fresh("rendered", "str")
             return cap["r"]
+
+        def extend(I2, a, k):
+            # template + text: still a template, but one that now contains text that was meant literally
+            def fmt_ext(I3, a3, k3):
+                cap["extended"] = True
+                return fmt(I3, a3, k3)
+            return SObj("Template", {"format": NativeFn("format", fmt_ext), "__add__": NativeFn("__add__", extend)})
         defaults = {f"k{i}": I.fresh(f"default{i}", "str") for i in range(nd)}
         pstate = {"k0": I.fresh("set_by_pipeline", "str")} if ns else {}
-        deferred = [SObj("Deferred", {"finalize_expression": NativeFn("finalize_expression", lambda I2, a, k: I2.fresh("deferred_text", "str"))})] if dfr else []
+        dtexts = []
+        deferred = [SObj("Deferred", {"finalize_expression": NativeFn("finalize_expression", lambda I2, a, k: (dtexts.append(I2.fresh("deferred_text", "str")), dtexts[-1])[1])})] if dfr else []
         state = SObj(I.E.index.lookup("sigma.conversion.state:ConversionState"), {"deferred": deferred, "processing_state": pstate})
         me = SObj(I.E.index.lookup("sigma.conversion.base:TextQueryBackend"),
-                  {"state_defaults": defaults, "query_expression": SObj("Template", {"format": NativeFn("format", fmt)}), "deferred_start": I.fresh("dstart", "str"), "deferred_separator": I.fresh("dsep", "str"),
+                  {"state_defaults": defaults, "query_expression": SObj("Template", {"format": NativeFn("format", fmt), "__add__": NativeFn("__add__", extend)}), "deferred_start": I.fresh("dstart", "str"), "deferred_separator": I.fresh("dsep", "str"),
                    "deferred_only_query": I.fresh("donly", "str")}, lazy=True)
-        return {"self": me, "args": [SObj("Rule", {}), I.fresh("query", "str"), state], "cap": cap, "defaults": defaults, "pstate": pstate, "snap_d": dict(defaults), "snap_p": dict(pstate)}
+        return {"self": me, "args": [SObj("Rule", {}), I.fresh("query", "str"), state], "cap": cap, "defaults": defaults, "pstate": pstate, "snap_d": dict(defaults), "snap_p": dict(pstate), "dtexts": dtexts, "case": case}
 
     def post(self, I, inp, r):
         c, cap = I.ctx, inp["cap"]
         d, p = inp["defaults"], inp["pstate"]
+        # rendering: only the backend's query expression is a format template; the deferred parts are text that follows the rendered query
+        c.require(not cap.get("extended"), "the deferred parts are not made part of the format template (a brace of a value inside them is literal text, not a replacement field)")
+        if "r" in cap and not cap.get("extended"):
+            me = inp["self"].fields
+            want = ops.concat_strs(I, [cap["r"]] + ([me["deferred_start"]] + inp["dtexts"] if inp["case"][2] else []))
+            c.require(len(inp["dtexts"]) == (1 if inp["case"][2] else 0) and ops.mk_bool_term(ops.py_eq(I, r, want)), "the query is the rendered query expression, followed by the deferred start and the deferred parts when there are any")
         c.require(set(d) == set(inp["snap_d"]) and all(d[k] is v for k, v in inp["snap_d"].items()), "state_defaults of the backend class is unchanged (no key added, no value replaced)", kind="FRAME")
         c.require(set(p) == set(inp["snap_p"]) and all(p[k] is v for k, v in inp["snap_p"].items()), "processing_state of the rule is unchanged", kind="FRAME")
         st = cap.get("state")
@@ -283,6 +297,27 @@ class FinishQueryFrame(Contract):
         after = backend().convert(SigmaCollection.from_dicts([rule("a", "windows"), rule("b", "linux")]))[1:]
         if alone != after:
             return f"rule b converts to {alone} alone and to {after} after a rule for which the pipeline set state key 'index'"
+        # a backend that defers wildcard matches, and a value with braces
+        from sigma.conversion.deferred import DeferredTextQueryExpression
+
+        class Like(DeferredTextQueryExpression):
+            template = "where {field} {op} {value}"
+            operators = {True: "not like", False: "like"}
+            default_field = "_raw"
+
+        class D(TextQueryTestBackend):
+            def convert_condition_field_eq_val_str(self, cond, state):
+                if cond.value.contains_special():
+                    return Like(state, self.escape_and_quote_field(cond.field), self.convert_value_str(cond.value, state))
+                return super().convert_condition_field_eq_val_str(cond, state)
+        for v in ("*{4D36E965}*", "*{query}*", "a{0}b*"):
+            try:
+                got = D().convert(SigmaCollection.from_dicts([{"title": "t", "logsource": {"category": "c"}, "detection": {"s": {"g": "plain", "f": v}, "condition": "s"}}]))
+            except Exception as e:
+                got = [f"{type(e).__name__}: {e}"]
+            want = [f'g="plain" | where f like "{v}"']
+            if got != want:
+                return f"a backend that defers wildcard matches converts the value {v!r} to {got}, expected {want} (braces of a value are literal text)"
         return None
 
     def frame_ok(self, I, inp, obj, name):
